@@ -1,6 +1,6 @@
 (* OPT / EDNS options: the normalisation performed by the option classes is idempotent, hence
    whatever the reader accepts is in normal form, encodes, and its encoding is a fixed point of
-   decode-then-encode.  (False before fix 2815f69: EDE text lost only ONE trailing NUL.) *)
+   decode-then-encode.  (False before fix e554dd4: EDE text lost only ONE trailing NUL.) *)
 From DV Require Import Base.Prelude Model.NameM Model.SchemaM Model.SchemaHand
   Proofs.SchemaName Proofs.SchemaCodec Proofs.SchemaThm Proofs.SchemaFix Proofs.SchemaReenc Proofs.SchemaHandThm.
 Open Scope Z_scope.
